@@ -6,7 +6,7 @@ from __future__ import annotations
 
 import ast
 
-from ..astutil import call_attr, iter_calls, iter_stores, propagate, single_assign_env, walk_local
+from ..astutil import call_attr, get_arg, iter_calls, iter_stores, propagate, single_assign_env, walk_local
 from ..flow import Flow, always_exits, path_conditions
 from ..index import AnalysisError, AnchorMissing, dotted, norm
 from ..units import LIT, ONE, TOP, ZERO, Law, U, analyze, known
@@ -639,6 +639,150 @@ def r16_reduce_order_merge_loop_and_sources(idx, r):
                   msg="the list of source files is replaced by the other side's: the files the data already held came from are forgotten (and a later directory merge reads them again)")
 
 
+def r17_like_merges_with_like(idx, r):
+    """A library / nuclide / region carries several KINDS of data side by side (ISOTXS, GAMISO, PMATRX metadata, neutron and gamma collections,
+    COMPXS metadata ...), each under its own attribute.  'Each [nuclide/library] with ... data and metadata identical to its source' needs, for
+    every kind K and in every merge method of the package:  (a) the target's K is merged with the OTHER object's K - `self.K.merge(other.K', ..)`
+    with K' != K puts the other side's K' (its keys, its source-file names) into the merged K and drops the other side's K; with the first
+    argument taken from `self` the other side's K is dropped altogether;  (b) the merged K is what the target holds as K afterwards - directly
+    (`self.K = self.K.merge(..)`) or through a helper that returns the merged kinds as a tuple which the caller unpacks: position i of the tuple
+    ends in the attribute of the kind merged at position i.
+    The family is enumerated (every method of armi.nuclearDataIO with a call `<first parameter>.<K>.merge(...)`), locals are read through copy
+    propagation, the sides are the method's own parameters whatever they are called."""
+    def split(e):
+        d = dotted(e)
+        if d is None:
+            return None, None
+        root, _, rest = d.partition(".")
+        return root, (rest or None)
+
+    def merge_kind(e, ps):
+        """K when e is the call `<p0>.<K>.merge(...)`"""
+        if isinstance(e, ast.Call) and isinstance(e.func, ast.Attribute) and e.func.attr == "merge":
+            root, kind = split(e.func.value)
+            if root == ps[0] and kind:
+                return kind
+        return None
+
+    fam = [f for m in idx.modules.values() if m.name.startswith("armi.nuclearDataIO") and ".tests" not in m.name for f in m.all_funcs()
+           if f.cls is not None and len(f.params()) >= 2]
+    n = 0
+    routed = {}
+    for f in fam:
+        if not any(call_attr(c) == "merge" for c in iter_calls(f.node, include_nested=False)):
+            continue
+        ps = f.params()
+        env = single_assign_env(f.node)
+        # (a) like with like
+        for c in iter_calls(f.node, include_nested=False):
+            if call_attr(c) != "merge":
+                continue
+            pc = propagate(c, env)
+            kind = merge_kind(pc, ps)
+            if kind is None:
+                continue
+            n += 1
+            a0 = get_arg(pc, 0, "other")
+            if a0 is None:
+                raise AnalysisError(f"{f.qualname}: `{norm(pc)[:70]}` - what is merged into {ps[0]}.{kind} not found")
+            aroot, akind = split(a0)
+            key = f"{f.qualname}:{kind}:merged-with-its-namesake"
+            if aroot is None or (aroot not in ps and akind is None):
+                r.undecided(key, f, f"`{norm(a0)[:60]}` is merged into {ps[0]}.{kind}: not an attribute of one of the merged objects, its kind is not decided", node=c)
+            elif aroot == ps[0]:
+                r.violate(key, f, f"`{norm(pc)[:90]}` merges {ps[0]}.{kind} with data of `{ps[0]}` itself: the {kind} of the object being merged in is dropped from the result", node=c)
+            else:
+                r.require(akind == kind, key, f, node=c,
+                          msg=f"`{norm(pc)[:90]}` merges the target's {kind} with the other side's {akind}: after merging two sources that both carry {kind}, the result's {kind} "
+                              f"holds the keys / source-file names of the other side's {akind} and the other side's own {kind} is lost (metadata no longer identical to its source)")
+        # (b) the merged K is kept as K
+        for st in walk_local(f.node):
+            if isinstance(st, ast.Assign):
+                k = merge_kind(propagate(st.value, env), ps)
+                for t in st.targets:
+                    root, z = split(t)
+                    if k and isinstance(t, ast.Attribute) and root == ps[0]:
+                        n += 1
+                        r.require(z == k, f"{f.qualname}:{k}:merged-result-kept-under-its-own-name", f, node=st,
+                                  msg=f"the merged {k} is stored as {ps[0]}.{z}: the target's {z} is replaced by data of another kind and its {k} stays unmerged")
+            elif isinstance(st, ast.Return) and st.value is not None:
+                v = propagate(st.value, env)
+                kinds = [merge_kind(e, ps) for e in (v.elts if isinstance(v, ast.Tuple) else [v])]
+                if any(kinds):
+                    if routed.setdefault(id(f), (f, kinds, isinstance(v, ast.Tuple)))[1:] != (kinds, isinstance(v, ast.Tuple)):
+                        raise AnalysisError(f"{f.qualname}: returns merged kinds in different orders on different paths")
+    for f, kinds, is_tuple in routed.values():
+        users = 0
+        for g in fam:
+            if g.cls.resolve(f.name) is not f:
+                continue
+            g0 = g.params()[0]
+            calls = [c for c in iter_calls(g.node, include_nested=False) if call_attr(c) == f.name and isinstance(c.func, ast.Attribute) and dotted(c.func.value) == g0]
+            if not calls:
+                continue
+            users += 1
+            genv = single_assign_env(g.node)
+
+            def is_call(e):
+                return isinstance(e, ast.Call) and call_attr(e) == f.name and isinstance(e.func, ast.Attribute) and dotted(e.func.value) == g0
+
+            names, kept = {}, {}
+            assigns = [st for st in walk_local(g.node) if isinstance(st, ast.Assign)]
+            for st in assigns:
+                v = propagate(st.value, genv)
+                for t in st.targets:
+                    if is_tuple and isinstance(t, (ast.Tuple, ast.List)) and is_call(v):
+                        if len(t.elts) != len(kinds) or any(isinstance(e, ast.Starred) for e in t.elts):
+                            raise AnalysisError(f"{g.qualname}: unpacks the {len(kinds)} results of {f.name} into {len(t.elts)} targets")
+                        for e, k in zip(t.elts, kinds):
+                            root, z = split(e)
+                            if isinstance(e, ast.Name):
+                                names[e.id] = k
+                            elif isinstance(e, ast.Attribute) and root == g0:
+                                kept.setdefault(k, []).append((z, st))
+            for nm in names:
+                if sum(1 for s_ in iter_stores(g.node, include_nested=False) if isinstance(s_.node, ast.Name) and s_.attr == nm) != 1:
+                    raise AnalysisError(f"{g.qualname}: `{nm}` (a result of {f.name}) is bound more than once")
+            for st in assigns:
+                v = propagate(st.value, genv)
+                k = None
+                if isinstance(v, ast.Name) and v.id in names:
+                    k = names[v.id]
+                elif is_tuple and isinstance(v, ast.Subscript) and is_call(v.value):
+                    try:
+                        ix = ast.literal_eval(v.slice)
+                    except ValueError:
+                        ix = None
+                    if not isinstance(ix, int) or isinstance(ix, bool) or not -len(kinds) <= ix < len(kinds):
+                        raise AnalysisError(f"{g.qualname}: `{norm(v)[:60]}` - which result of {f.name} this is could not be read")
+                    k = kinds[ix]
+                elif not is_tuple and is_call(v):
+                    k = kinds[0]
+                if k is None:
+                    continue
+                for t in st.targets:
+                    root, z = split(t)
+                    if isinstance(t, ast.Attribute) and root == g0:
+                        kept.setdefault(k, []).append((z, st))
+            if not kept:
+                raise AnalysisError(f"{g.qualname}: what becomes of the merged {[k for k in kinds if k]} returned by {f.name} could not be followed")
+            for i, k in enumerate(kinds):
+                if k is None:
+                    continue
+                n += 1
+                zs = [z for z, _ in kept.get(k, [])]
+                wrong = [(z, st) for z, st in kept.get(k, []) if z != k and z in kinds]
+                key = f"{g.qualname}:{k}:merged-result-kept-under-its-own-name"
+                if wrong:
+                    r.violate(key, g, f"result {i} of {f.name} is the merged {k} but `{norm(wrong[0][1])[:70]}` stores it as {g0}.{wrong[0][0]}: the merged object's {wrong[0][0]} holds {k} data and its own is lost", node=wrong[0][1])
+                else:
+                    r.require(k in zs, key, g, msg=f"result {i} of {f.name} is the merged {k} but it is never assigned to {g0}.{k}: the target keeps its old {k}, what the other side brought (keys, source files) is lost")
+        if not users:
+            raise AnchorMissing(f"a caller of {f.qualname} that keeps the merged {[k for k in kinds if k]}")
+    if n < 1:
+        raise AnchorMissing("merge methods that merge an attribute of the target with one of the other object")
+
+
 def run(idx, chk):
     chk.explanation = (
         "C10: metadata/collection merges never write into their inputs and raise on conflicts; direct stores into the target library happen only "
@@ -677,3 +821,5 @@ def run(idx, chk):
                  necessary="macroscopic constants are the density-weighted sums over the block's own nuclides; a refused assignment leaves the library unchanged")
     chk.run_rule("R10.16", "__reduce__ arguments stand at their constructor position; a merge visits every file; source files accumulate", lambda r: r16_reduce_order_merge_loop_and_sources(idx, r), floor=5,
                  necessary="a merged library holds the union of its sources, on every process")
+    chk.run_rule("R10.17", "every kind of data is merged with its namesake on the other side and the merged kind is kept under its own attribute (all merge methods of nuclearDataIO)", lambda r: r17_like_merges_with_like(idx, r), floor=19,
+                 necessary="the merged library/nuclide/region holds, per kind (ISOTXS, GAMISO, PMATRX, COMPXS metadata; neutron and gamma data), metadata identical to its sources - never one kind's metadata in another kind's place")
